@@ -12,7 +12,7 @@ import re
 
 from .. import core, editmodel as em, obs
 
-CH = ["a", "1", "_", "'", "-", ".", '"', "\\", "$", "{", "}", " ", "\n", "\r", "\t", "é"]
+CH = ["a", "1", "_", "'", "-", ".", '"', "\\", "$", "{", "}", " ", "\n", "\r", "\t", "é", "@"]
 KW = ["if", "then", "else", "let", "in", "with", "assert", "rec", "inherit", "or", "true", "false", "null", "import"]
 PATH_CH = ["a", ".", '"', "\\", "@", "1", "\n"]
 NIX_KEYWORDS = {"if", "then", "else", "let", "in", "with", "assert", "rec", "inherit"}  # cannot be bare attribute names
@@ -98,6 +98,15 @@ def check_name(name: str):
                 v3 = obs.attr_tree(r3[1])
                 if v3.status != "ok" or v3.tree != {}:
                     out.append(("rm-wrong", kind + "+" + kind2, f"{text1!r}: rm {sp2!r} -> {r3[1]!r}"))
+        # scope-prefixed: the selector prefix must not disturb (or be disturbed by) the name
+        n += 1
+        r5 = _set("let q = 1; in let q = 1; in { }", "@" + sp, "1")
+        if r5[0] != "ok":
+            out.append(("scoped-set-refused", kind, f"set {'@' + sp!r} on two let layers raised {r5[1]}: {r5[2]}"))
+        else:
+            v5 = obs.attr_tree(r5[1])
+            if v5.status != "ok" or len(v5.layers) != 2 or obs.plain(v5.layers[1]) != {"q": "1", name: "1"} or obs.plain(v5.layers[0]) != {"q": "1"}:
+                out.append(("scoped-set-wrong", kind, f"set {'@' + sp!r} -> {r5[1]!r}"))
         # two-segment paths: name below and above a plain segment; split only at unquoted dots
         for path, want in ((f"x.{sp}", {"x": {name: "1"}}), (f"{sp}.x", {name: {"x": "1"}})):
             n += 1
